@@ -109,11 +109,15 @@ def airborne_global_decode(lat_e, lon_e, dlat, dlon, k, dk, newest, swap, t_e, t
         assert r is None, "None when the two frames' latitudes lie in different NL bands"
     else:
         assert r is not None, "a position is returned when both frames lie in the same NL band"
-        want_lat = rlat_e if newest == 0 else rlat_o
-        want_lon = rlon_e if newest == 0 else rlon_o
-        assert close(r[0], want_lat), "latitude == the newer frame's encoded latitude Rlat (exactly)"
-        assert cpr_spec.congruent360(r[1], want_lon) and -180 < r[1] and r[1] <= 180, \
-            "longitude == the newer frame's encoded longitude Rlon modulo 360, normalised to (-180, 180]"
+        # the position carried by the frame with the later timestamp, and one quantisation step of its parity
+        i_n = 0 if newest == 0 else 1
+        lat_n = lat_e if newest == 0 else lat_o
+        lon_n = lon_e if newest == 0 else lon_o
+        s_lat = cpr_spec.lat_step(i_n, False)
+        assert -s_lat <= r[0] - lat_n and r[0] - lat_n <= s_lat, \
+            "latitude within one quantisation step of the position carried by the newer frame"
+        assert cpr_spec.within_mod360(r[1], lon_n, cpr_spec.lon_step(k, i_n, False)), \
+            "longitude within one quantisation step of the position carried by the newer frame (modulo 360)"
 
 
 @harness(("C03", "C05"), inputs={"lat_e": RealRange(-90, 90), "dlat": RealRange(-0.05, 0.05), "surface": Choice(False, True)},
